@@ -129,6 +129,9 @@ func c03Worker(w *W) {
 	console := &slowSink{slow: true}
 	log.Stdout = console
 	log.TimeNow = func(ctx context.Context) time.Time { return ctx.Value(c03ctxKey{}).(*c03ev).t }
+	commonCtx := make([]log.Field, 1, 8) // one immutable slice with spare capacity, handed to every event
+	commonCtx[0] = log.String("svc", "checkout")
+	log.FieldsFromContext = func(ctx context.Context) []log.Field { return commonCtx }
 	log.StringFromContext = func(ctx context.Context) string {
 		if e := ctx.Value(c03ctxKey{}).(*c03ev); e.level == 3 {
 			return e.id
